@@ -7,7 +7,7 @@
    theorems, the error behaviour is `parse_inputs`), every order accepted by
    `_Indexer.__init__`, every list of stored entries inside the matrix, every
    payload type that is a commutative monoid under addition. *)
-From Coq Require Import List Arith Bool Lia ZArith.
+From Coq Require Import List Arith Bool Lia ZArith Ring.
 Import ListNotations.
 From QV Require Import Model.C09 Proofs.C09.
 
@@ -241,3 +241,51 @@ Theorem C09_expand_order_bounded :
   forall c, In c expand_cases -> expand_ok (fst c) (snd c) = true.
 Proof. apply forallb_forall. vm_compute. reflexivity. Qed.
 Print Assumptions C09_expand_order_bounded.
+
+(* 17. product theorem: the partial trace of a Kronecker product of square
+       factors is the Kronecker product of the kept factors times the traces
+       of the others - any number of factors, any dims (1s and repeats), any
+       selection, any commutative semiring of entries *)
+Theorem C09_ptrace_of_product :
+  forall (C : Type) (c0 c1 : C) (cadd cmul : C -> C -> C),
+    semi_ring_theory c0 c1 cadd cmul (@eq C) ->
+  forall (As : list (mat C)) dims mask r c,
+    allpos dims -> length As = length dims -> length dims = length mask ->
+    r < prod (kept_dims dims mask) -> c < prod (kept_dims dims mask) ->
+    ptrace_spec C c0 cadd dims mask (kron_list C c1 cmul As dims) r c =
+    cmul (tr_list C c0 c1 cadd cmul (select (map negb mask) As) (traced_dims dims mask))
+         (kron_list C c1 cmul (select mask As) (kept_dims dims mask) r c).
+Proof. exact ptrace_of_product. Qed.
+Print Assumptions C09_ptrace_of_product.
+
+(* 18. ... and therefore what the sparse partial-trace loop returns on any
+       storage of a product state *)
+Theorem C09_sparse_ptrace_of_product :
+  forall (C : Type) (c0 c1 : C) (cadd cmul : C -> C -> C),
+    semi_ring_theory c0 c1 cadd cmul (@eq C) ->
+  forall (As : list (mat C)) dims sel E r c,
+    allpos dims -> length As = length dims -> in_range C (prod dims) E ->
+    (forall i j, i < prod dims -> j < prod dims ->
+       den C c0 cadd E i j = kron_list C c1 cmul As dims i j) ->
+    r < keep_size dims sel -> c < keep_size dims sel ->
+    let mask := mask_of (length dims) sel in
+    den C c0 cadd (ptrace_loop C (tensor_table dims sel) E) r c =
+    cmul (tr_list C c0 c1 cadd cmul (select (map negb mask) As) (traced_dims dims mask))
+         (kron_list C c1 cmul (select mask As) (kept_dims dims mask) r c).
+Proof.
+  intros C c0 c1 cadd cmul SR As dims sel E r c Hp HA HE HM Hr Hc mask.
+  assert (HL : length dims = length mask) by (unfold mask; rewrite mask_of_length; reflexivity).
+  rewrite (C09_ptrace_sums_over_traced_indices C c0 cadd (SRadd_comm SR) (SRadd_assoc SR)
+             (SRadd_0_l SR) dims sel E r c Hp HE Hr Hc).
+  fold mask. rewrite keep_size_mask in Hr, Hc. fold mask in Hr, Hc.
+  rewrite (ptrace_spec_ext C c0 cadd dims mask _ (kron_list C c1 cmul As dims) r c Hp HL HM Hr Hc).
+  apply ptrace_of_product; assumption.
+Qed.
+Print Assumptions C09_sparse_ptrace_of_product.
+
+Example C09_nonvacuous_product :
+  let A : mat Z := fun i j => Z.of_nat (1 + i + 2 * j) in
+  let B : mat Z := fun i j => Z.of_nat (3 + 2 * i + j) in
+  ptrace_spec Z 0%Z Z.add [2; 3] [true; false] (kron_list Z 1%Z Z.mul [A; B] [2; 3]) 1 0 = 36%Z /\
+  tr_list Z 0%Z 1%Z Z.add Z.mul [B] [3] = 18%Z /\ A 1 0 = 2%Z.
+Proof. vm_compute. repeat split; reflexivity. Qed.
